@@ -453,6 +453,19 @@ func (l *spyLoader) Load(name string) (string, error) {
 
 func (l *spyLoader) Exists(name string) bool { _, ok := l.tmpls[name]; return ok }
 
+// spyTSLoader additionally reports one timestamp for everything it has (bumped by the check)
+type spyTSLoader struct {
+	*spyLoader
+	ts *int64
+}
+
+func (l spyTSLoader) GetModifiedTime(name string) (int64, error) {
+	if _, ok := l.tmpls[name]; !ok {
+		return 0, fmt.Errorf("%w: %s", twig.ErrTemplateNotFound, name)
+	}
+	return *l.ts, nil
+}
+
 type C17LoaderCase struct {
 	Ctx  Ctx    `json:"ctx"`
 	Set  TSet   `json:"set"`
@@ -493,11 +506,51 @@ func checkC17Loader(c C17LoaderCase) error {
 			return fmt.Errorf("partial output %s with the error", q(r.Out))
 		}
 	}
+	// the same with a reload: everything is cached by a first render, the loader's timestamps
+	// advance (auto-reload on), and the k-th loader call of the second render fails
+	mkTS := func() (*twig.Engine, *spyLoader, *int64) {
+		e := twig.New()
+		ts := int64(1000)
+		l := &spyLoader{tmpls: srcs}
+		e.RegisterLoader(spyTSLoader{l, &ts})
+		e.RegisterLoader(twig.NewArrayLoader(map[string]string{"unrelated": "u"}))
+		e.EnableSandbox(allowAll{})
+		e.SetAutoReload(true)
+		NewSpies().Install(e)
+		return e, l, &ts
+	}
+	e1, l1, ts1 := mkTS()
+	if r := render(e1, c.Main, c.Ctx.Go()); r.Failed() || r.Out != base.Out {
+		return nil
+	}
+	*ts1 += 100
+	l1.loads = 0
+	if r := render(e1, c.Main, c.Ctx.Go()); r.Failed() || r.Out != base.Out {
+		return fmt.Errorf("render after the timestamps advanced gives %v, before %s", r, q(base.Out))
+	}
+	reloads := l1.loads
+	for k := 1; k <= reloads; k++ {
+		e, l, ts := mkTS()
+		render(e, c.Main, c.Ctx.Go())
+		*ts += 100
+		l.loads = 0
+		l.failAt = k
+		r := render(e, c.Main, c.Ctx.Go())
+		if r.Panic != "" {
+			return fmt.Errorf("panic when reload call %d failed: %s", k, r.Panic)
+		}
+		if r.Err == "" {
+			return fmt.Errorf("reload: loader call %d of %d failed (after the templates had been cached and their timestamps advanced) but Render returned %s with a nil error; templates:%s", k, reloads, q(r.Out), showSources(srcs))
+		}
+		if !errors.Is(r.Error(), errSentinel) {
+			return fmt.Errorf("reload: loader call %d of %d failed but the returned error does not wrap the cause: %s; templates:%s", k, reloads, firstLine(r.Err), showSources(srcs))
+		}
+	}
 	return nil
 }
 
 func TestC17Loaders(t *testing.T) {
-	r := NewRec(t, "C17", "inheritance, include and import structures served by a spy loader; for every loader call k of the fault-free render the render is repeated on a fresh engine with call k failing with a wrapped sentinel (an I/O style failure, not 'not found'); non-trivial = the render loads at least two templates; distinct by source set")
+	r := NewRec(t, "C17", "inheritance, include and import structures served by a spy loader; for every loader call k of the fault-free render the render is repeated on a fresh engine with call k failing with a wrapped sentinel (an I/O style failure, not 'not found'); then again with everything cached, auto-reload on and advanced timestamps, failing every loader call of the reloading render; non-trivial = the render loads at least two templates; distinct by source set")
 	defer r.Flush()
 	rapid.Check(t, func(rt *rapid.T) {
 		var sc SetCase
